@@ -13,6 +13,7 @@ package checks
 
 import (
 	"bytes"
+	"context"
 	"encoding/json"
 	"fmt"
 	"math/big"
@@ -23,9 +24,12 @@ import (
 	"unicode/utf8"
 
 	ledger "github.com/formancehq/ledger/internal"
+	"github.com/formancehq/ledger/internal/engine/command"
+	"github.com/formancehq/ledger/verifharness/enginesim"
 	"github.com/formancehq/ledger/verifharness/evid"
 	"github.com/formancehq/ledger/verifharness/gen"
 	"github.com/formancehq/ledger/verifharness/storeform"
+	"github.com/formancehq/stack/libs/go-libs/logging"
 	"github.com/formancehq/stack/libs/go-libs/metadata"
 	"pgregory.net/rapid"
 )
@@ -259,15 +263,103 @@ func c13SameTyped(a, b *ledger.ChainedLog) string {
 	return ""
 }
 
+// c13EngineWritten: the entries a real Commander writes (every kind of write, with and without
+// idempotency key, metadata nil / empty / filled) are read back from their stored form and re-verified.
+func c13EngineWritten(rt *rapid.T, c *evid.Collector) {
+	store, commander, stop := enginesim.Standalone()
+	defer stop()
+	ctx := logging.ContextWithLogger(context.Background(), nopLog{})
+	n := rapid.IntRange(2, 8).Draw(rt, "ewWrites")
+	txs := 0
+	var desc strings.Builder
+	for i := 0; i < n; i++ {
+		p := command.Parameters{}
+		if rapid.Bool().Draw(rt, "ewKeyed") {
+			p.IdempotencyKey = fmt.Sprintf("key-%d", i)
+		}
+		var md metadata.Metadata
+		switch rapid.IntRange(0, 2).Draw(rt, "ewMeta") {
+		case 1:
+			md = metadata.Metadata{}
+		case 2:
+			md = metadata.Metadata{"k": gen.MetaString().Draw(rt, "ewMetaValue")}
+		}
+		kind := rapid.SampledFrom([]string{"create", "create", "revert", "save_meta_account", "save_meta_tx", "delete_meta_account", "delete_meta_tx"}).Draw(rt, "ewKind")
+		if txs == 0 && kind != "save_meta_account" && kind != "delete_meta_account" {
+			kind = "create"
+		}
+		var err error
+		pn := safely(func() {
+			switch kind {
+			case "create":
+				_, err = commander.CreateTransaction(ctx, p, ledger.TxToScriptData(ledger.TransactionData{Postings: ledger.Postings{ledger.NewPosting("world", "a", "USD", new(big.Int).Set(gen.Amount().Draw(rt, "ewAmount")))}, Metadata: md}, false))
+				if err == nil {
+					txs++
+				}
+			case "revert":
+				_, err = commander.RevertTransaction(ctx, p, big.NewInt(int64(rapid.IntRange(0, txs-1).Draw(rt, "ewTarget"))), true)
+				if err == nil {
+					txs++
+				}
+			case "save_meta_account":
+				err = commander.SaveMeta(ctx, p, ledger.MetaTargetTypeAccount, "a", md)
+			case "save_meta_tx":
+				err = commander.SaveMeta(ctx, p, ledger.MetaTargetTypeTransaction, big.NewInt(int64(rapid.IntRange(0, txs-1).Draw(rt, "ewTarget"))), md)
+			case "delete_meta_account":
+				err = commander.DeleteMetadata(ctx, p, ledger.MetaTargetTypeAccount, "a", "k")
+			case "delete_meta_tx":
+				err = commander.DeleteMetadata(ctx, p, ledger.MetaTargetTypeTransaction, big.NewInt(int64(rapid.IntRange(0, txs-1).Draw(rt, "ewTarget"))), "k")
+			}
+		})
+		if pn != nil {
+			violation(rt, c, "C13/engine/panic", "write %d (%s) panicked: %v", i, kind, pn)
+			return
+		}
+		fmt.Fprintf(&desc, "%s/key=%v/meta=%d;", kind, p.IdempotencyKey != "", len(md))
+	}
+	var prevStore *ledger.ChainedLog
+	for i, e := range store.Entries {
+		cl := e.Log
+		raw, _ := json.Marshal(cl)
+		kind := strings.ToLower(cl.Type.String())
+		c.Case("engine:"+string(raw), true, []string{"family:engine-written", "kind:" + kind, fmt.Sprintf("keyed:%v", cl.IdempotencyKey != "")}, func() any {
+			return map[string]any{"family": "engine-written", "writes": desc.String(), "position": i, "chained": json.RawMessage(raw)}
+		})
+		st, err := c13StoreRoundTrip(cl)
+		if err != nil {
+			violation(rt, c, "C13/store/"+kind+"/decode", "entry %d written by the engine cannot be read back from its stored row: %v\njson=%s", i, err, raw)
+			return
+		}
+		if d := c13SameTyped(cl, st); d != "" {
+			violation(rt, c, "C13/store/"+kind+"/field", "entry %d written by the engine changed through the store row: %s", i, d)
+			return
+		}
+		var re *ledger.ChainedLog
+		if p := safely(func() { re = st.Log.ChainLog(prevStore) }); p != nil {
+			violation(rt, c, "C13/rehash/"+kind+"/panic", "re-chaining entry %d written by the engine panicked: %v", i, p)
+			return
+		}
+		if !bytes.Equal(re.Hash, cl.Hash) || re.ID.Cmp(cl.ID) != 0 {
+			violation(rt, c, "C13/rehash/"+kind+"/engine-written", "entry %d (%s, written by the engine through: %s): the hash recomputed from the content read back and the previous entry differs from the stored hash\njson=%s", i, kind, desc.String(), raw)
+			return
+		}
+		prevStore = st
+	}
+}
+
 func TestC13(t *testing.T) {
 	c := evid.New("C13")
-	c.Rule = "generated chains of 1-12 log entries (all 7 kind x target shapes built with the code's constructors; API-format timestamps through ledger.ParseTime; amounts to 10^40; nil/empty/unicode/HTML/long metadata; references; idempotency keys). evaluations = log entries judged. Non-trivial = entry that is not a bare new-transaction with one posting, no metadata, no key; distinct = by canonical JSON of the entry."
+	c.Rule = "generated chains of 1-12 log entries (all 7 kind x target shapes built with the code's constructors; API-format timestamps through ledger.ParseTime; amounts to 10^40; nil/empty/unicode/HTML/long metadata; references; idempotency keys); one case in ten instead lets a real Commander write 2-8 entries (every kind of write, keyed or not, metadata nil / empty / filled) and judges what it persisted. evaluations = log entries judged. Non-trivial = entry that is not a bare new-transaction with one posting, no metadata, no key; distinct = by canonical JSON of the entry."
 	c.Assumptions = []string{
 		"PostgreSQL jsonb is emulated by a generic decode (exact numbers) and re-encode; timestamptz by an instant truncated to microseconds returned as time.Time",
 		"log dates are what ledger.Now() yields (UTC, microsecond precision), as in every constructor call of the engine",
 		"strings contain no NUL (jsonb refuses it; that is a store failure, not a round-trip question)",
 	}
 	runProp(t, c, func(rt *rapid.T) {
+		if rapid.IntRange(0, 9).Draw(rt, "engineWritten") == 0 {
+			c13EngineWritten(rt, c)
+			return
+		}
 		n := rapid.IntRange(1, 12).Draw(rt, "chainLen")
 		entries := make([]c13Entry, n)
 		for i := range entries {
